@@ -210,7 +210,7 @@ func serializeOver(l gopacket.SerializableLayer, payload []byte) ([]byte, error,
 		copy(p, payload)
 	}
 	var err error
-	_, panicked := lib.Protect(func() string {
+	_, panicked := protectS(func() string {
 		err = l.SerializeTo(b, gopacket.SerializeOptions{FixLengths: true, ComputeChecksums: true})
 		return ""
 	})
@@ -237,7 +237,7 @@ func roundTripIP6(sig string, l *layers.IPv6, payload []byte) {
 	l2 := &layers.IPv6{}
 	fb := &feedback{}
 	var derr error
-	if _, p := lib.Protect(func() string { derr = l2.DecodeFromBytes(append([]byte{}, out...), fb); return "" }); p {
+	if _, p := protectS(func() string { derr = l2.DecodeFromBytes(append([]byte{}, out...), fb); return "" }); p {
 		return
 	}
 	if derr != nil {
@@ -381,7 +381,7 @@ func ownSite(site string) bool { return strings.HasPrefix(site, "layers/ip6.go")
 func monPacket(kind string, lt gopacket.LayerType, flags int, d []byte) {
 	opts := gopacket.DecodeOptions{Lazy: flags&1 != 0, NoCopy: flags&2 != 0, DecodeStreamsAsDatagrams: flags&4 != 0, SkipDecodeRecovery: true}
 	var pkt gopacket.Packet
-	_, panicked := lib.Protect(func() string {
+	_, panicked := protectS(func() string {
 		pkt = gopacket.NewPacket(withCap(d, []byte{0xde, 0xad, 0xbe, 0xef, 0xde, 0xad, 0xbe, 0xef}), lt, opts)
 		_ = pkt.Layers() // forces lazy decoding
 		return ""
@@ -399,7 +399,7 @@ func monPacket(kind string, lt gopacket.LayerType, flags int, d []byte) {
 		lib.Stat("pkt:" + kind + ":errorlayer")
 	}
 	// recovery on: rendering must not panic (observed only; C01 belongs to engine pkt)
-	if _, p := lib.Protect(func() string {
+	if _, p := protectS(func() string {
 		p2 := gopacket.NewPacket(d, lt, gopacket.Default)
 		_ = p2.String()
 		_ = p2.Dump()
@@ -417,7 +417,7 @@ func monPacket(kind string, lt gopacket.LayerType, flags int, d []byte) {
 		st.dlp.IgnoreUnsupported = true
 	}
 	var decoded []gopacket.LayerType
-	_, panicked = lib.Protect(func() string {
+	_, panicked = protectS(func() string {
 		_ = st.dlp.DecodeLayers(withCap(d, nil), &decoded)
 		return ""
 	})
@@ -429,7 +429,13 @@ func monPacket(kind string, lt gopacket.LayerType, flags int, d []byte) {
 	}
 	lib.Stat(fmt.Sprintf("dlp:layers=%d", min(len(decoded), 6)))
 	// C05: the parser's IPv6 (reused object) equals the packet's IPv6 layer
-	if len(decoded) > 0 && decoded[0] == layers.LayerTypeIPv6 {
+	n6 := 0
+	for _, t := range decoded {
+		if t == layers.LayerTypeIPv6 {
+			n6++
+		}
+	}
+	if n6 == 1 && decoded[0] == layers.LayerTypeIPv6 { // (a nested IPv6 would be decoded into the same object)
 		p3 := gopacket.NewPacket(d, lt, gopacket.Default)
 		if l, ok := p3.Layer(layers.LayerTypeIPv6).(*layers.IPv6); ok && len(p3.Layers()) > 0 && p3.Layers()[0] == gopacket.Layer(l) {
 			a, b := ip6R(&st.pIP6), ip6R(l)
@@ -475,6 +481,13 @@ func wfRoundTrip(s *serSpec, l gopacket.SerializableLayer) bool {
 			return v.NextHeader != layers.IPProtocolIPv6HopByHop || len(s.payload) > 65535
 		}
 		os := hbhOpts(v.HopByHop.Options)
+		if len(s.payload) <= 65535 {
+			for _, o := range os { // a jumbo option is in range only on a jumbogram
+				if o.Type == layers.IPv6HopByHopOptionJumbogram {
+					return false
+				}
+			}
+		}
 		return totalOptLen(os) <= 2048 && jumboOptsOK(os)
 	case *layers.IPv6HopByHop:
 		return totalOptLen(hbhOpts(v.Options)) <= 2048
@@ -540,8 +553,12 @@ func monSer(s *serSpec, l gopacket.SerializableLayer, out []byte) {
 	case "dst":
 		roundTripExt("dst", nil, s.mk().(*layers.IPv6Destination), s.payload)
 	case "rt":
-		p := gopacket.NewPacket(out, layers.LayerTypeIPv6Routing, gopacket.Default)
-		r2, ok := p.Layer(layers.LayerTypeIPv6Routing).(*layers.IPv6Routing)
+		rec := &recorder{}
+		var r2 *layers.IPv6Routing
+		ok := false
+		if layers.LayerTypeIPv6Routing.Decode(out, rec) == nil && len(rec.lays) == 1 {
+			r2, ok = rec.lays[0].(*layers.IPv6Routing)
+		}
 		r1 := l.(*layers.IPv6Routing)
 		if !ok {
 			lib.Finding("C06", "lip6:roundtrip:rt:dec-error", "serialized routing header does not decode")
@@ -561,15 +578,19 @@ func monSer(s *serSpec, l gopacket.SerializableLayer, out []byte) {
 			d = "SourceRoutingIPs"
 		case !bytes.Equal(r2.Payload, s.payload):
 			d = "Payload"
-		case p.Metadata().Truncated:
+		case rec.tr:
 			d = "truncated"
 		}
 		if d != "" {
 			lib.Finding("C06", "lip6:roundtrip:rt:"+d, "routing header differs after serialize+decode: "+d)
 		}
 	case "frag":
-		p := gopacket.NewPacket(out, layers.LayerTypeIPv6Fragment, gopacket.Default)
-		f2, ok := p.Layer(layers.LayerTypeIPv6Fragment).(*layers.IPv6Fragment)
+		rec := &recorder{}
+		var f2 *layers.IPv6Fragment
+		ok := false
+		if layers.LayerTypeIPv6Fragment.Decode(out, rec) == nil && len(rec.lays) == 1 {
+			f2, ok = rec.lays[0].(*layers.IPv6Fragment)
+		}
 		f1 := l.(*layers.IPv6Fragment)
 		if !ok {
 			lib.Finding("C06", "lip6:roundtrip:frag:dec-error", "serialized fragment header does not decode")
@@ -580,7 +601,7 @@ func monSer(s *serSpec, l gopacket.SerializableLayer, out []byte) {
 		if fragR(&a) != fragR(&b) {
 			lib.Finding("C06", "lip6:roundtrip:frag:"+firstDiffField(fragR(&a), fragR(&b)), "fragment header differs after serialize+decode")
 		}
-		if !bytes.Equal(f2.Payload, s.payload) || p.Metadata().Truncated {
+		if !bytes.Equal(f2.Payload, s.payload) || rec.tr {
 			lib.Finding("C06", "lip6:roundtrip:frag:Payload", "fragment payload differs after serialize+decode")
 		}
 	}
